@@ -17,6 +17,7 @@ struct Config {
     // S1: SIGINT delivery
     std::vector<long> sigint_points;  // global hook-point hit indices (0-based) at which SIGINT is raised
     std::vector<long> sigint_writes;  // indices of interposed write-type I/O calls on the results file
+    std::vector<long> sigint_clocks;  // indices of wall-clock reads (they happen inside Display::printText and the log stamps)
     // S5: entropy
     uint64_t entropy_seed = 0;
     // S6: clock: starts at 1 s, +1 ms per read; optional backwards jump (informational probe only)
